@@ -83,6 +83,10 @@ def generate(seed, tier, k):
     doc = {"kind": "job", "seed": seed, "profile": "homogeneous", "mesh": mesh, "field": {"kind": "Field" if dim == 3 else "PlaneStrain"}}
     if lagrange:
         doc["region"] = {"order": mesh["order"], "permute": mesh["permute"]}
+    if pick(seed, "region-look", 4) == 0:
+        # earlier in the process someone looked at another region of the same template (plotted the
+        # quadrature points scaled by their weights, copied the region, inverted the scheme)
+        doc["region"] = dict(doc.get("region") or {}, look=True)
     if mat["name"] == "NI":
         doc["items"] = [{"type": "SolidBodyNearlyIncompressible", "umat": {"name": "NeoHooke", "p": {"mu": mat["p"]["mu"]}}, "bulk": mat["p"]["bulk"]}]
     else:
